@@ -63,7 +63,10 @@ func (l *ListSearch) sendNewLoc(operation chan<- Task, task Task) {
 
 func (l *ListSearch) updateMajor(operation chan<- Task, task Task) {
 	// Update the best value seen so far, and send a MajorIteration.
-	if l.bestIdx == -1 || task.F < l.bestF || math.IsNaN(l.bestF) {
+	// Results of concurrent evaluations arrive in any order: among
+	// equal values the row that comes first in the list is kept, as
+	// it is with a single task.
+	if l.bestIdx == -1 || task.F < l.bestF || math.IsNaN(l.bestF) || (task.F == l.bestF && task.ID < l.bestIdx) {
 		l.bestF = task.F
 		l.bestIdx = task.ID
 	} else {
